@@ -1,6 +1,8 @@
 import Driver.DiffDB
+import Driver.Fns
 
 def main (args : List String) : IO UInt32 := do
   match args with
   | ["C12"] => Driver.DiffDB.main; return 0
+  | ["C07"] => Driver.Fns.main; return 0
   | _ => IO.eprintln "usage: ldriver <property-id>"; return 2
